@@ -12,6 +12,7 @@ CONSTANTS
   Conts = {TRUE, FALSE}
   Forks = {FALSE}
   MaxFaults = 1
+  FaultBudgets = {1}
   MaxRestarts = 1
 SPECIFICATION MCLive
 INVARIANTS TypeOK
